@@ -4,8 +4,27 @@ import (
 	"fmt"
 	"os"
 
+	"github.com/antlr/antlr4/runtime/Go/antlr"
+	parser "github.com/anz-bank/sysl/pkg/grammar"
 	"google.golang.org/protobuf/encoding/protojson"
 )
+
+// lexDump: `vh_c08 lex a.sysl` prints the tokens of the real lexer (type, channel, line, column, text)
+func lexDump(file string) {
+	b, err := os.ReadFile(file)
+	if err != nil {
+		panic(err)
+	}
+	lexer := parser.NewThreadSafeSyslLexer(antlr.NewInputStream(string(b)))
+	lexer.RemoveErrorListeners()
+	for i := 0; i < 100000; i++ {
+		t := lexer.NextToken()
+		fmt.Printf("%3d ty=%-3d ch=%d %d:%d %q\n", i, t.GetTokenType(), t.GetChannel(), t.GetLine(), t.GetColumn(), t.GetText())
+		if t.GetTokenType() == antlr.TokenEOF {
+			break
+		}
+	}
+}
 
 // probe: `vh_c08 probe a.sysl b.sysl ...` compiles the files (named f0.sysl, f1.sysl, ...) and prints the module
 func probe(args []string) {
